@@ -12,15 +12,66 @@ from harness.cones import EXACT_CONES, real_order
 
 TITLE = "Pareto-set extraction vs Lean model"
 RULE = ("cases: (cone with integer rows, list of dyadic-lattice vectors); shapes: exhaustive small "
-        "lattices (thorough), random with duplicates, chains, antichains, facet ties; non-trivial = at "
+        "lattices (thorough), random with duplicates, chains, antichains, facet ties; cone matrix stored as float, "
+        "int64, int32 or nested int list (integer dtypes with quarter-lattice fractional data); non-trivial = at "
         "least one point is eliminated and at least two kept values or a duplicate value present; "
         "distinct by (cone, vectors)")
 ASSUMPTIONS = ["inputs are dyadic-lattice vectors and integer cone rows so the float path is exact"]
 
 
+_int_cache = {}
+
+
+def _order_for(W, wtype):
+    """The real order object for cone rows `W` (integers) stored with the requested dtype: `float`
+    goes through `harness.cones.real_order`; `int64` / `int32` build `OrderingCone` from an integer
+    ndarray and `list` from a nested list of Python ints (what the class docstring does:
+    `OrderingCone(np.array([[1, 0], [0, 1]]))`) — the cone is the same, so is the specification."""
+    if wtype == "float":
+        return real_order(W)
+    from vopy.order import PolyhedralConeOrder
+    from vopy.ordering_cone import OrderingCone
+
+    key = (tuple(tuple(int(x) for x in r) for r in W), wtype)
+    if key not in _int_cache:
+        rows = [[int(x) for x in r] for r in W]
+        if wtype == "int64":
+            arg = np.array(rows, dtype=np.int64)
+        elif wtype == "int32":
+            arg = np.array(rows, dtype=np.int32)
+        elif wtype == "list":
+            arg = rows
+        else:
+            raise ValueError(wtype)
+        _int_cache[key] = PolyhedralConeOrder(OrderingCone(arg))
+    return _int_cache[key]
+
+
 def gen(ctx):
     rng = ctx.rng
     cones = list(EXACT_CONES)
+    # integer-dtype cone matrices with fractional (quarter-lattice) data: a - b must not be truncated
+    for _ in range(ctx.n(150, 9000)):
+        cname = rng.choice(cones)
+        W, _p = EXACT_CONES[cname]
+        m = len(W[0])
+        shape = rng.choice(["random", "dups", "close", "facet"])
+        n = rng.randint(2, 10)
+        if shape == "close":
+            # differences smaller than 1 in every coordinate
+            base = [core.dyadic(rng, -8, 8, 2) for _ in range(m)]
+            X = [[b + core.dyadic(rng, -3, 3, 2) for b in base] for _ in range(n)]
+        else:
+            X = [[core.dyadic(rng, -12, 12, 2) for _ in range(m)] for _ in range(n)]
+            if shape == "dups":
+                for _ in range(rng.randint(1, n)):
+                    X[rng.randrange(n)] = list(X[rng.randrange(n)])
+            elif shape == "facet" and m == 2:
+                w = W[rng.randrange(len(W))]
+                X = [[X[0][0] - i * w[1] / 4.0, X[0][1] + i * w[0] / 4.0] for i in range(-2, n - 2)]
+                rng.shuffle(X)
+        yield {"kind": "sets", "cone": cname, "X": X, "shape": "int-" + shape,
+               "wtype": rng.choice(["int64", "int64", "int32", "list"])}
     # exhaustive small lattices (thorough only, worker-sharded)
     if ctx.tier == "thorough":
         k = 0
@@ -78,8 +129,15 @@ def gen(ctx):
 def run_case(ctx, case):
     W, pointed = EXACT_CONES[case["cone"]]
     X = np.array(case["X"], dtype=float)
-    order = real_order(W)
+    wtype = case.get("wtype", "float")
+    try:
+        order = _order_for(W, wtype)
+    except Exception as e:
+        ctx.violation("cone-construction-crash:" + core.exc_key(e),
+                      f"OrderingCone from a {wtype} matrix raised {type(e).__name__}: {e}", case)
+        return
     ws, xs = core.qmat(W), core.qmat(X)
+    ctx.count("wtype_" + wtype)
     ctx.count("shape_" + case["shape"])
     ctx.count("cone_" + case["cone"])
     # ---- fast routine
